@@ -566,8 +566,8 @@ class Interp:
         if isinstance(cur, list) and op == "+":
             cur.extend(self.iterate(v))
             return
-        if isinstance(cur, NDArr) and isinstance(s.target, ast.Name):
-            # in-place numpy update keeps identity
+        if isinstance(cur, NDArr) and isinstance(s.target, (ast.Name, ast.Attribute)):
+            # in-place numpy update keeps identity (obj.attr += v updates the array object held by the attribute: every alias sees it)
             r = self.binop(op, cur, v)
             cur.data[...] = np.frompyfunc(lambda x: coerce_cell(x, cur.kind), 1, 1)(r.data if isinstance(r, NDArr) else r)
             return
